@@ -105,9 +105,10 @@ fn plan_for(property: &str, tier: &str, seed: u64, workers: usize) -> Result<Pla
                 native("bulk", runs(30_000, 500_000)),
                 native("buf", runs(100_000, 3_000_000)),
             ];
-            let m = miri_runs.unwrap_or(if thorough { 64 } else { 0 });
+            let m = miri_runs.unwrap_or(if thorough { 96 } else { 0 });
             if m > 0 {
                 batches.push(miri("miri", m, 16));
+                batches.push(miri("buf", m, 16));
             }
             Ok(Plan {
                 level: "exploration",
@@ -257,7 +258,7 @@ pub fn run_main(property: &str, tier: &str) -> i32 {
             bt.elapsed().as_secs_f64()
         );
         configs.put(
-            &b.config,
+            &if b.launcher == Launcher::Miri { format!("miri/{}", b.config) } else { b.config.clone() },
             J::obj()
                 .set("launcher", J::s(if b.launcher == Launcher::Miri { "miri" } else { "native (release + debug-assertions + overflow-checks + unsafe-precondition checks)" }))
                 .set("runs_requested", J::u(b.runs))
@@ -285,7 +286,7 @@ pub fn run_main(property: &str, tier: &str) -> i32 {
                     violations.push((
                         Violation {
                             property: property.to_string(),
-                            class: "crash".to_string(),
+                            class: if exit.contains("(hang)") { "hang".to_string() } else { "crash".to_string() },
                             detail: format!("process died ({exit}): {}", crash_summary(&stderr)),
                             case,
                         },
